@@ -13,7 +13,7 @@ ROOTS = (T + "timezone::TimeZone::from_tz_data", T + "timezone::TimeZone::from_p
 def run(chk, tier):
     P = Prog("default")
     chk.configs.add("default")
-    for r in (r_absint, r_block_order, r_header_order, r_rule_boxes, r_validate, r_validate_cover, r_record_layout, r_offset_sign, r_data_indices, r_capacity, r_header_consts):
+    for r in (r_absint, r_block_order, r_header_order, r_rule_boxes, r_validate, r_validate_cover, r_record_layout, r_offset_sign, r_data_indices, r_ltt_box, r_footer, r_capacity, r_header_consts):
         chk.guarded(r, P, tier)
     chk.assume("that every conforming file is accepted and decoded to exactly the written transitions/types/rule is not decided (value-level)")
     return {
@@ -328,6 +328,60 @@ def r_data_indices(chk, P, tier):
         chk.expect(guarded, "names slice #%d" % sites, "parse() slices state.names with a value read from the file that was not compared with header.char_count first (line %s)" % t.get("ln"), loc=P.loc(fn, t.get("ln")))
     if sites < 2:
         raise AnchorLost("parse(): %d slicings of state.names found" % sites)
+
+
+def r_ltt_box(chk, P, tier):
+    """the lookups negate and add ut_offset: i32::MIN must never enter a LocalTimeType. Both constructors reject it on every path that builds a value."""
+    chk.rule("BOX.ltt_offset", "LocalTimeType::new and ::with_offset return Ok only on paths that tested ut_offset == i32::MIN and found it false", floor=2)
+    for name in ("new", "with_offset"):
+        fn = T + "timezone::LocalTimeType::" + name
+        oks = [p_ for p_ in Sym(P, fn).paths() if p_.end[0] == "return" and result_variant(p_.ret)[0] == "Ok"]
+        if not oks:
+            raise AnchorLost(fn + ": no Ok path")
+        bad = 0
+        for p_ in oks:
+            tested = False
+            for c in p_.conds:
+                t = c[1]
+                if c[0][0] == "switch" and t[0] == "bin" and t[2] == ("arg", 1) and const_of(t[3]) == -(1 << 31):
+                    if (t[1] == "Eq" and c[2] == 0) or (t[1] == "Ne" and c[2] != 0) or (t[1] == "Gt" and c[2] != 0):
+                        tested = True
+            if not tested:
+                bad += 1
+        chk.expect(bad == 0, name, "LocalTimeType::%s builds a value on %d of %d paths without having excluded ut_offset == i32::MIN" % (name, bad, len(oks)), loc=P.loc(fn))
+
+
+def r_footer(chk, P, tier):
+    """a version 2/3 file has a footer (RFC 8536 3.3): every accepting path of parse() that read the 64-bit block goes through the footer checks
+    (UTF-8, enclosed in new-lines), a missing footer is not silently treated as `no rule`"""
+    chk.rule("DOM.footer", "in the version 2/3 arm of parse() (the blocks dominated by the second State::new) the footer is always Some(rest of input), so it reaches the UTF-8 / new-line tests", floor=1)
+    fn = T + "parser::parse"
+    cfg = P.cfg(fn)
+    calls = P.calls(fn)
+    st_new = [bi for bi, t, cs in calls if any(c.endswith("parser::State::<'a>::new") for c in cs)]
+    utf8 = [bi for bi, t, cs in calls if any(c.endswith("str::from_utf8") or c.endswith("str::converts::from_utf8") for c in cs)]
+    tznew = [bi for bi, t, cs in calls if any(c.endswith("timezone::TimeZone::new") for c in cs)]
+    if len(st_new) < 2 or not utf8 or not tznew:
+        raise AnchorLost("parse(): State::new x%d, from_utf8 x%d, TimeZone::new x%d" % (len(st_new), len(utf8), len(tznew)))
+    # the second (64-bit) State::new is the one reached from the first
+    second = [b for b in st_new if any(a != b and cfg.reaches_without(a, {b}, set()) for a in st_new)]
+    if not second:
+        raise AnchorLost("parse(): no State::new reachable from another")
+    mir = P.fn(fn)["mir"]
+    for b in second:
+        region = [d for d in range(len(mir["blocks"])) if d in cfg.reach and cfg.dominates(b, d) and d != b]
+        somes = nones = 0
+        for d in region:
+            for st in mir["blocks"][d]["s"]:
+                if st["k"] == "assign" and st["rv"]["k"] == "agg" and st["rv"].get("adt") == "std::option::Option":
+                    ty = P.ty_s(mir["locals"][st["pl"]["l"]]) if not st["pl"]["p"] else ""
+                    if "[u8]" in ty:
+                        if st["rv"].get("variant") == "Some":
+                            somes += 1
+                        else:
+                            nones += 1
+        chk.expect(somes >= 1 and nones == 0, "footer present", "in the version 2/3 arm of parse() the footer is %s (it must always be Some(rest of the input): a missing footer is rejected by the new-line test, not "
+                   "treated as `no rule`)" % ("set to None on some path" if nones else "never set"), loc=P.loc(fn))
 
 
 def r_validate_cover(chk, P, tier):
